@@ -373,6 +373,17 @@ def check_property(prop, tier, seed, jobs=None, only=None, verbose=False):
                     pth = (p, "none", "")
             violations.append((cn, on, r["params"], pth[0], pth[1] == "none", len(unlisted)))
 
+    # obligations that fail exactly as a recorded finding describes are not part of what this run proves: they are taken out of
+    # the obligations count and reported separately (the property is then decided for everything outside the finding classes)
+    kf_proof = kf_bounded = 0
+    for r, ob in failed:
+        if match_known(known, prop, r["contract"], ob["name"], r["params"]) is not None:
+            if reg[r["contract"]].kind == "proof":
+                kf_proof += 1
+            else:
+                kf_bounded += 1
+    n_obl -= kf_proof
+    n_bobl -= kf_bounded
     wall = time.time() - t_start
     level = json.load(open(os.path.join(ROOT, "MANIFEST.json")))
     lvl = "proof"
@@ -390,6 +401,9 @@ def check_property(prop, tier, seed, jobs=None, only=None, verbose=False):
                            "obligations/discharged count proved-kind contracts only; bounded contracts are counted "
                            "separately in bounded_obligations and are never counted as proved.",
             "bounded_obligations": n_bobl, "bounded_discharged": n_bdis,
+            "known_finding_obligations_excluded": {"proof": kf_proof, "bounded": kf_bounded,
+                                                   "note": "obligations failing exactly as a finding recorded in known_findings.json "
+                                                           "describes; excluded from obligations/discharged, listed under known_findings"},
             "bounded_bounds": sorted({c.bound for c in mine if c.kind != "proof" and c.bound}),
             "functions_under_contract": fn_hash,
             "contracts": per_contract,
